@@ -17,7 +17,7 @@ EXPLANATION = (
     "reader's arithmetic is value-level and not decided.")
 # every anchor of these rules lives in the h3 crate: thorough tier repeats them on the feature-less build
 EXTRA_CONFIGS = ["h3-plain"]
-RULES = "C04-a control dispatch tables (A3); C04-b stream classification (A3); C04-c frame acted on exactly once (A8); C04-d who may claim slots (A10); C04-e memo cleared (A2); C04-f varint decoded only when complete (A5); shared through a proxy: C16-a under C04-f"
+RULES = "C04-a control dispatch tables (A3); C04-b stream classification (A3); C04-c frame acted on exactly once, Pending only from the control stream itself (A8/A3); C04-d who may claim slots (A10); C04-e memo cleared (A2); C04-f varint decoded only when complete (A5); shared through a proxy: C16-a under C04-f"
 
 CI = "h3::connection::ConnectionInner::"
 PN = "h3::frame::FrameStream::poll_next"
